@@ -2,84 +2,47 @@
    Property theorems only; each is closed by [exact] of a lemma proved in proofs/.
 
    Model: model/Chan.v (risor's Chan over a Go channel; a schedule is any list of atomic steps
-   Send i | Recv j | Next j | Store j | Count j | Entry j | Close k | Cancel | ...Ctx of any number of senders and
-   receivers, any capacity) and model/Spawn.v (Thread/wait, argument slices of Spawn). *)
+   Send i | Recv j | Take j | Fin j | Next j | Store j | Count j | Entry j | Close k | Cancel | ...Ctx of
+   any number of senders and receivers, any capacity) and model/Spawn.v (Thread/wait, argument slices).
+   Take; Fin is Chan.NextEntry (receive, then advance rxCount atomically and build the entry from the
+   received value), what a range loop performs per iteration (fix 0f2710a);
+   Next/Store/Count/Entry is the generic Iterator protocol, which for channels is now reached only
+   through the builtins keys(ch) and map(ch). *)
 From Coq Require Import List Bool Arith NArith Permutation.
 Require Import RV.model.Chan RV.model.Spawn RV.proofs.ChanProofs RV.proofs.SpawnProofs.
 Import ListNotations.
 
-(* ---------------------------------------------------------------- channel: every schedule *)
+(* ---------------------------------------------------------------- exactly once, in order: every schedule *)
 
-(* The channel itself is FIFO and loses nothing, under EVERY schedule (overlapping iterations,
-   close, cancellation included): per sender, what the channel has released to receivers, then what
-   is queued, then what the sender has still to send, is that sender's program in order. *)
-Theorem C10_channel_fifo_no_loss : forall (prog : nat -> list N) (f : bool) (c : nat) (sch : list act) (s : st),
-  run (init f c prog) sch = Some s ->
-  forall i, from i (map snd (deq s) ++ buf s) ++ tag i (todo s i) = tag i (prog i).
-Proof. exact fifo_all_schedules. Qed.
-
-(* ---------------------------------------------------------------- exactly once, in order (guarded) *)
-
-(* G = [exclusive]: no receiver enters Chan.Next while another one is inside ForIter (decidable
-   by running the schedule).  Under G, at any quiescent point (queue empty, no iteration in progress):
-   every receiver's script was handed exactly the values the channel released to it, in that order
-   (receive(), <-c and range alike), the released values are per sender exactly the values sent, in
-   the sender's order, and the range keys count 0,1,2,... *)
-Theorem C10_guarded : forall (prog : nat -> list N) (f : bool) (c : nat) (sch : list act) (s : st),
-  run (init f c prog) sch = Some s -> exclusive (init f c prog) sch = true ->
-  buf s = [] -> iters s = [] ->
+(* Scripts that use send, receive (<-c, c.receive()), range loops, close - any number of senders, of
+   receiving and of ranging goroutines on the one channel, any capacity, any interleaving, cancellation
+   included ([one_step_only]: no step of the Next/Entry protocol).  At any point where the queue is empty
+   and no receiver is in the middle of a range step:
+   the values the channel released are, per sender, exactly the values that sender has sent, in its order;
+   every receiver's script was handed exactly the values the channel released to it, in that order;
+   and the range keys count 0,1,2,... *)
+Theorem C10_exactly_once : forall (prog : nat -> list N) (c : nat) (sch : list act) (s : st),
+  run (init c prog) sch = Some s -> one_step_only sch = true -> buf s = [] -> iters s = [] ->
   (forall i, from i (map snd (deq s)) ++ tag i (todo s i) = tag i (prog i)) /\
   (forall j, by_key j (delivered (seen s)) = by_key j (deq s)) /\
   entry_keys (seen s) = seq 0 (length (entry_keys (seen s))).
-Proof. exact guarded_delivery. Qed.
-
-(* the class a script controls: at most one receiver (j0) ranges over the channel; any number of
-   other receivers may use receive() / <-c concurrently *)
-Theorem C10_single_iterator_is_guarded : forall (j0 : nat) (f : bool) (c : nat) (prog : nat -> list N) (sch : list act),
-  single_iter j0 sch = true -> exclusive (init f c prog) sch = true.
-Proof. exact single_exclusive_init. Qed.
+Proof. exact one_step_delivery. Qed.
 
 (* multiset form for n senders that have sent everything: the values handed to the scripts are a
    permutation of the values of the senders' programs (each exactly once) *)
-Theorem C10_guarded_exactly_once : forall (prog : nat -> list N) (f : bool) (c : nat) (sch : list act) (s : st) (n : nat),
-  run (init f c prog) sch = Some s -> exclusive (init f c prog) sch = true ->
+Theorem C10_exactly_once_multiset : forall (prog : nat -> list N) (c : nat) (sch : list act) (s : st) (n : nat),
+  run (init c prog) sch = Some s -> one_step_only sch = true ->
   buf s = [] -> iters s = [] -> (forall i, todo s i = []) -> (forall i, n <= i -> prog i = []) ->
   Permutation (payloads (map snd (delivered (seen s)))) (flat_map prog (seq 0 n)).
-Proof. exact guarded_multiset. Qed.
+Proof. exact one_step_multiset. Qed.
 
-(* ---------------------------------------------------------------- the full statement is false of the code as it is *)
-
-(* two receivers range over one channel: Next 1 takes 10, Next 2 takes 11, receiver 1 stores 10 in
-   lastReceived, receiver 2 overwrites it with 11, both Entry steps read 11: 11 is delivered twice, 10 is lost *)
-Theorem C10_refuted_range_multi :
-  exists (prog : nat -> list N) (c : nat) (sch : list act) (s : st),
-    run (init false c prog) sch = Some s /\
-    buf s = [] /\ iters s = [] /\ (forall i, todo s i = []) /\
-    map snd (deq s) = [(0, 10%N); (0, 11%N)] /\
-    delivered (seen s) = [(1, (0, 11%N)); (2, (0, 11%N))] /\
-    multi_iter sch = true /\ exclusive (init false c prog) sch = false.
-Proof. exists prog2, 2, sch_bad. exact range_multi_witness. Qed.
-
-(* ... and true of the proposed repair (ForIter takes the value and its entry from the channel in one
-   step, [init true]): the same conclusion for EVERY schedule, any number of ranging receivers *)
-Theorem C10_full_after_repair : forall (prog : nat -> list N) (c : nat) (sch : list act) (s : st),
-  run (init true c prog) sch = Some s -> buf s = [] ->
-  (forall i, from i (map snd (deq s)) ++ tag i (todo s i) = tag i (prog i)) /\
-  (forall j, by_key j (delivered (seen s)) = by_key j (deq s)) /\
-  entry_keys (seen s) = seq 0 (length (entry_keys (seen s))).
-Proof. exact repaired_delivery. Qed.
-
-(* what still holds under EVERY schedule, overlapping iterations included: as many values handed to
-   scripts (plus iterations in progress) as the channel released, and nothing handed out that the
-   channel did not release (no invented value) *)
-Theorem C10_all_schedules_count_and_origin : forall (prog : nat -> list N) (f : bool) (c : nat) (sch : list act) (s : st),
-  run (init f c prog) sch = Some s ->
-  length (delivered (seen s)) + length (iters s) = length (deq s) /\
-  NoDup (map fst (iters s)) /\
-  (forall m, last s = Some m -> In m (map snd (deq s))) /\
-  (forall p, In p (delivered (seen s)) -> In (snd p) (map snd (deq s))) /\
-  (forall j ph m, In (j, (ph, m)) (iters s) -> In m (map snd (deq s))).
-Proof. exact weak_all_schedules. Qed.
+(* The channel itself is FIFO and loses nothing under EVERY schedule, the Next/Entry protocol included:
+   per sender, what the channel has released to receivers, then what is queued, then what the sender has
+   still to send, is that sender's program in order. *)
+Theorem C10_channel_fifo_no_loss : forall (prog : nat -> list N) (c : nat) (sch : list act) (s : st),
+  run (init c prog) sch = Some s ->
+  forall i, from i (map snd (deq s) ++ buf s) ++ tag i (todo s i) = tag i (prog i).
+Proof. exact fifo_all_schedules. Qed.
 
 (* ---------------------------------------------------------------- closed and drained *)
 
@@ -97,26 +60,79 @@ Theorem C10_drained_forever : forall (sch : list act) (s s' : st) (es : list ev)
   Drained s -> run_ev s sch = Some (s', es) -> Drained s' /\ Forall no_value es.
 Proof. exact drained_forever. Qed.
 
-(* ---------------------------------------------------------------- iteration ends at close *)
+(* ---------------------------------------------------------------- a range loop ends at close *)
 
-Theorem C10_iteration_ends_at_close : forall (s : st) (j : nat),
+Theorem C10_range_ends_at_close : forall (s : st) (j : nat),
+  closed s = true -> buf s = [] -> busy j s = false ->
+  step s (Take j) = Some (note s (EvIterEnd j), EvIterEnd j).
+Proof. exact take_closed_drained. Qed.
+
+Theorem C10_range_ends_only_at_close : forall (s : st) (j : nat) (s' : st),
+  step s (Take j) = Some (s', EvIterEnd j) -> closed s = true /\ buf s = [] /\ s' = note s (EvIterEnd j).
+Proof. exact take_end_only_when. Qed.
+
+(* when a range loop ends it has been handed everything the channel released to it, and everything
+   that was sent has been released *)
+Theorem C10_range_complete : forall (prog : nat -> list N) (c : nat) (sch : list act) (s : st) (j : nat) (s' : st),
+  run (init c prog) sch = Some s -> one_step_only sch = true ->
+  step s (Take j) = Some (s', EvIterEnd j) ->
+  closed s = true /\
+  (forall i, from i (map snd (deq s)) ++ tag i (todo s i) = tag i (prog i)) /\
+  by_key j (delivered (seen s)) = by_key j (deq s).
+Proof. exact range_complete. Qed.
+
+(* ---------------------------------------------------------------- the Next/Entry protocol: keys(ch), map(ch)
+   The builtins keys() and map() consume a channel through the generic Iterator protocol: Chan.Next (value
+   dropped) then Chan.Entry, which reads the shared fields lastReceived / rxCount. *)
+
+(* G = [exclusive]: nobody starts a range step while a receiver is inside the protocol, nobody enters the
+   protocol while any receiver is inside NextEntry or the protocol
+   (decidable by running the schedule).  Under G the conclusion of C10_exactly_once holds. *)
+Theorem C10_iterator_protocol_guarded : forall (prog : nat -> list N) (c : nat) (sch : list act) (s : st),
+  run (init c prog) sch = Some s -> exclusive (init c prog) sch = true ->
+  buf s = [] -> iters s = [] ->
+  (forall i, from i (map snd (deq s)) ++ tag i (todo s i) = tag i (prog i)) /\
+  (forall j, by_key j (delivered (seen s)) = by_key j (deq s)) /\
+  entry_keys (seen s) = seq 0 (length (entry_keys (seen s))).
+Proof. exact guarded_delivery. Qed.
+
+(* the class a script controls: one goroutine (j0) consumes the channel with keys()/map(), any number of
+   others use receive(); nobody ranges *)
+Theorem C10_iterator_protocol_single_consumer : forall (j0 c : nat) (prog : nat -> list N) (sch : list act),
+  single_iter j0 sch = true -> exclusive (init c prog) sch = true.
+Proof. exact single_exclusive_init. Qed.
+
+(* without the guard the conclusion is false of the protocol: two goroutines inside keys(ch)/map(ch) -
+   Next 1 takes 10, Next 2 takes 11, receiver 1 stores 10 in lastReceived, receiver 2 overwrites it with 11,
+   both Entry steps read 11: 11 is handed out twice, 10 is lost *)
+Theorem C10_iterator_protocol_refuted :
+  exists (prog : nat -> list N) (c : nat) (sch : list act) (s : st),
+    run (init c prog) sch = Some s /\
+    buf s = [] /\ iters s = [] /\ (forall i, todo s i = []) /\
+    map snd (deq s) = [(0, 10%N); (0, 11%N)] /\
+    delivered (seen s) = [(1, (0, 11%N)); (2, (0, 11%N))] /\
+    multi_iter sch = true /\ exclusive (init c prog) sch = false.
+Proof. exists prog2, 2, sch_bad. exact range_multi_witness. Qed.
+
+(* what still holds of it under EVERY schedule: as many values handed to scripts (plus iterations in
+   progress) as the channel released, and nothing handed out that the channel did not release *)
+Theorem C10_all_schedules_count_and_origin : forall (prog : nat -> list N) (c : nat) (sch : list act) (s : st),
+  run (init c prog) sch = Some s ->
+  length (delivered (seen s)) + length (iters s) = length (deq s) /\
+  NoDup (map fst (iters s)) /\
+  (forall m, last s = Some m -> In m (map snd (deq s))) /\
+  (forall p, In p (delivered (seen s)) -> In (snd p) (map snd (deq s))) /\
+  (forall j ph m, In (j, (ph, m)) (iters s) -> In m (map snd (deq s))).
+Proof. exact weak_all_schedules. Qed.
+
+Theorem C10_iterator_protocol_ends_at_close : forall (s : st) (j : nat),
   closed s = true -> buf s = [] -> busy j s = false ->
   step s (Next j) = Some (note s (EvIterEnd j), EvIterEnd j).
 Proof. exact next_closed_drained. Qed.
 
-Theorem C10_iteration_ends_only_at_close : forall (s : st) (j : nat) (s' : st),
+Theorem C10_iterator_protocol_ends_only_at_close : forall (s : st) (j : nat) (s' : st),
   step s (Next j) = Some (s', EvIterEnd j) -> closed s = true /\ buf s = [] /\ s' = note s (EvIterEnd j).
 Proof. exact iter_end_only_when. Qed.
-
-(* when a range loop ends it has been handed everything the channel released to it, and everything
-   that was sent has been released *)
-Theorem C10_iteration_complete : forall (prog : nat -> list N) (f : bool) (c : nat) (sch : list act) (s : st) (j : nat) (s' : st),
-  run (init f c prog) sch = Some s -> exclusive (init f c prog) sch = true ->
-  step s (Next j) = Some (s', EvIterEnd j) ->
-  closed s = true /\
-  (forall i, from i (map snd (deq s)) ++ tag i (todo s i) = tag i (prog i)) /\
-  by_key j (delivered (seen s)) = by_key j (deq s).
-Proof. exact iteration_complete. Qed.
 
 (* ---------------------------------------------------------------- wait() *)
 
@@ -145,10 +161,15 @@ Proof. exact accept_sound. Qed.
 
 (* ---------------------------------------------------------------- non-vacuity *)
 
-Example C10_repair_satisfiable :
-  exists s, run (init true 2 (fun i => if Nat.eqb i 0 then [10; 11]%N else []))
-                [Send 0; Send 0; Next 1; Next 2; Close 0; Next 1; Next 2] = Some s /\
-            buf s = [] /\ delivered (seen s) = [(1, (0, 10%N)); (2, (0, 11%N))] /\ entry_keys (seen s) = [0; 1].
+Definition ex_range_sch : list act :=
+  [Send 0; Send 0; Take 1; Take 2; Fin 2; Fin 1; Close 0; Take 1; Take 2].
+
+(* two goroutines range over one channel; receiver 2 finishes its step first, so it gets key 0 for the
+   second value - and still every value is delivered exactly once *)
+Example C10_exactly_once_satisfiable :
+  exists s, run (init 2 (fun i => if Nat.eqb i 0 then [10; 11]%N else [])) ex_range_sch = Some s /\
+            one_step_only ex_range_sch = true /\ buf s = [] /\ iters s = [] /\
+            delivered (seen s) = [(2, (0, 11%N)); (1, (0, 10%N))] /\ entry_keys (seen s) = [0; 1].
 Proof. eexists. split; [vm_compute; reflexivity|]. vm_compute. repeat split. Qed.
 
 Definition ex_prog : nat -> list N := fun i => match i with 0 => [1; 2; 3]%N | 1 => [7; 8]%N | _ => [] end.
@@ -156,8 +177,8 @@ Definition ex_sch : list act :=
   [Send 0; Send 1; Next 5; Send 0; Store 5; Count 5; Entry 5; Recv 6; Send 1; Next 5; Store 5; Recv 6; Count 5; Entry 5;
    Send 0; Next 5; Store 5; Count 5; Entry 5; Close 0; Next 5; Recv 6; Recv 6].
 
-Example C10_guarded_satisfiable :
-  exists s, run (init false 2 ex_prog) ex_sch = Some s /\ exclusive (init false 2 ex_prog) ex_sch = true /\
+Example C10_iterator_protocol_satisfiable :
+  exists s, run (init 2 ex_prog) ex_sch = Some s /\ exclusive (init 2 ex_prog) ex_sch = true /\
             single_iter 5 ex_sch = true /\ buf s = [] /\ iters s = [] /\
             by_key 5 (delivered (seen s)) = [(0, 1%N); (0, 2%N); (0, 3%N)] /\
             by_key 6 (delivered (seen s)) = [(1, 7%N); (1, 8%N)] /\
